@@ -640,6 +640,12 @@ func init() {
 						}
 					}
 				}
+				if instances == 0 {
+					// the operator could not be instantiated against what this implementation issues (e.g. the last-block rewrite
+					// against an authenticated cipher): nothing was tested - not executable, neither held nor violated
+					env.emit(vpOut{ID: c.ID, Err: "operator " + op + " has no instance for " + cred})
+					continue
+				}
 				obs := map[string]interface{}{"instances": instances, "accepted": accepted, "acceptedDifferent": diff, "leak": leak, "panic": panics > 0}
 				env.emit(vpOut{ID: c.ID, Obs: obs, Conc: map[string]interface{}{"example_accepted_different": example, "cookies": len(A.cookies)}})
 			}
